@@ -153,11 +153,13 @@ def _build(max_size, stub, with_hdr):
 
 def targets(tier):
     ts = []
-    t = SlicedTarget("drx_stub7", _build(7, True, False)); t.params = dict(kind="stub", lw=3, hd=False); ts.append(t)
-    t = Target("drx_full", _build(1024, False, True)); t.params = dict(kind="full", lw=11, hd=True); ts.append(t)
+    t = SlicedTarget("drx_stub7", _build(7, True, False)); t.params = dict(kind="stub", lw=3, hd=False, max=7); ts.append(t)
+    # MAX_PACKET_SIZE a power of two: Signal(range(MAX + 1)) needs one bit more than range(MAX); length = MAX exactly is in the lists
+    t = SlicedTarget("drx_stub8", _build(8, True, False)); t.params = dict(kind="stub", lw=4, hd=False, max=8); ts.append(t)
+    t = Target("drx_full", _build(1024, False, True)); t.params = dict(kind="full", lw=11, hd=True, max=1024); ts.append(t)
     if tier != "quick":
-        t = Target("drx_stub7h", _build(7, True, True)); t.params = dict(kind="stubh", lw=3, hd=True); ts.append(t)
-        t = Target("drx_full12", _build(12, False, True)); t.params = dict(kind="full", lw=4, hd=True); ts.append(t)
+        t = Target("drx_stub7h", _build(7, True, True)); t.params = dict(kind="stubh", lw=3, hd=True, max=7); ts.append(t)
+        t = Target("drx_full12", _build(12, False, True)); t.params = dict(kind="full", lw=4, hd=True, max=12); ts.append(t)
     return ts
 
 
@@ -174,6 +176,7 @@ def _stub_words():
         A=(A, 0, 1),                                # dw0 (type DATA) / dw1 length 5 / dw2 / full payload word (checksum 1)
         Z=(0x00000008, 0, 1),                       # dw0 / dw1 length 0 / dw2
         B1=(0x00010008, 0, 1), B2=(0x00020008, 0, 1), B6=(0x00060008, 0, 1), B7=(0x00070008, 0, 1),   # dw1: lengths 1,2,6,7
+        B4=(0x00040008, 0, 1), B8=(0x00080008, 0, 1),   # dw1: lengths 4 and 8 (8 = MAX_PACKET_SIZE of the drx_stub8 target)
         T=(2 | (c0 << 27), 0, 1),                   # dw3 for headers with word checksum 2 (e.g. A x A, A Z Z): CRC-5 of link word 0
         Tb=(1 | (c0 << 27), 0, 1),                  # wrong CRC-16 field
         T5=(2 | ((c0 ^ 1) << 27), 0, 1),            # wrong CRC-5
@@ -219,9 +222,23 @@ _STUB_ALPHA_HDR = [      # smaller: the header registers multiply the reachable 
 ]
 
 
-def _table(kind, tier):
+_STUB_ALPHA_8 = [        # for MAX_PACKET_SIZE = 8 (4-bit counter): lengths 8 (= MAX), 5, 4, 0
+    ("WAIT_FOR_HPSTART", ["HP", "A", "iHP"]),
+    ("RECEIVE_DW0",      ["A", "Z", "iHP"]),
+    ("RECEIVE_DW1",      ["B8", "A", "B4", "Z", "iHP"]),
+    ("RECEIVE_DW2",      ["A", "Z", "iHP"]),
+    ("RECEIVE_DW3",      ["T", "Tb", "iG"]),
+    ("CHECK_HEADER",     ["SD", "A", "iSD"]),
+    ("RECEIVE_PAYLOAD",  ["A", "P", "G", "G2", "Ac", "iHP"]),
+    ("CHECK_CRC32",      ["G", "G2", "F", "iG"]),
+]
+
+
+def _table(kind, tier, mx=7):
     if kind == "stubh":
         return _STUB_ALPHA_HDR
+    if mx == 8:
+        return _STUB_ALPHA_8
     return _STUB_ALPHA_QUICK if tier == "quick" else _STUB_ALPHA
 
 
@@ -298,7 +315,8 @@ def _stream_stub(rng):
         elif k < 0.32: ws += g("HP", "A", "B1", "Z", "T", "SD", "Q1", "F")               # good, 1 byte
         elif k < 0.39: ws += g("HP", "A", "B2", "Z", "T", "SD", "Q2", "F2")              # good, 2 bytes
         elif k < 0.46: ws += g("HP", "A", "B7", "Z", "T", "SD", "A", "Q7", "F3")         # good, 7 bytes
-        elif k < 0.53: ws += g("HP", "A", "SD", "Z", "T", "SD", "A", "G2")               # good, 4 bytes
+        elif k < 0.50: ws += g("HP", "A", "SD", "Z", "T", "SD", "A", "G2")               # good, 4 bytes
+        elif k < 0.53: ws += g("HP", "A", "B8", "Z", "T", "SD", "A", "A", "G")           # good, 8 bytes
         elif k < 0.60: ws += g("HP", "A", "A", "A", "T", "SD", "Ac", "P", "F")           # ctrl symbol in the payload
         elif k < 0.67: ws += g("HP", "A", "A", "A", "Tb", "SD", "A", "P", "F")           # header CRC-16 wrong
         else:
@@ -315,6 +333,29 @@ def traces(target, rng, tier):
     for k in range(n):
         ws = _stream_full(rng, lw) if (kind == "full" or rng.random() < 0.3) else _stream_stub(rng)
         p_idle = rng.choice([0.0, 0.0, 0.15, 0.5])
+        tr = []
+        for d, c in ws:
+            while rng.random() < p_idle:
+                tr.append(_idle(rng))
+            tr.append(_w(d, c, 1))
+        tr += [_idle(rng), _idle(rng)]
+        out.append(tr)
+    if kind == "full":
+        out += _boundary_traces(rng, target.params["max"], tier)
+    return out
+
+
+def _boundary_traces(rng, mx, tier):
+    """Packets whose length is at / just below MAX_PACKET_SIZE (the largest value data_bytes_remaining must hold):
+    good and CRC-corrupted, with and without idle words."""
+    plan = [(mx, False, 0.0), (mx, True, 0.1), (mx - 1, False, 0.05)] if tier == "quick" else \
+           [(L, bad, p) for L in range(mx - 4, mx + 1) for bad, p in ((False, 0.0), (True, 0.1))] + [(mx, False, 0.3), (mx, False, 0.0)]
+    out = []
+    for L, bad, p_idle in plan:
+        payload = [rng.getrandbits(8) for _ in range(L)]
+        dw0, dw1, dw2, lc = 8 | (rng.getrandbits(27) << 5), rng.getrandbits(16) | (L << 16), rng.getrandbits(32), rng.getrandbits(11)
+        ws = header_words(dw0, dw1, dw2, lc) + dpp_words(payload, crc=(crc32(payload) ^ (1 << rng.randrange(32))) if bad else None)
+        ws += header_words(8, 3 << 16, 0, 0) + dpp_words([1, 2, 3])          # a short packet right behind it
         tr = []
         for d, c in ws:
             while rng.random() < p_idle:
@@ -339,19 +380,19 @@ def obligations(targets, tier):
         U = _units(kind)
         mstep = f"drx_step {U} {lw} {_b(hd)}"
         if kind in ("stub", "stubh"):
-            table = _table(kind, tier)
+            table = _table(kind, tier, t.params["max"])
             obs.append(tie_dep.rlock_dep(
                 f"ob_{t.name}", t, St="drx_state", mstep=mstep, enc="drx_enc", dec="drx_dec", wf="drx_wf",
-                dec_enc="drx_dec_enc", wf_step=f"drx_wf_step {U} {lw} {_b(hd)} {_bounded(kind)} drx_lw_3",
+                dec_enc="drx_dec_enc", wf_step=f"drx_wf_step {U} {lw} {_b(hd)} {_bounded(kind)} drx_lw_{lw}",
                 m0=f"drx_init {U}", wf_m0=f"apply drx_wf_init; exact {_bounded(kind)}.",
                 alpha=_alpha_coq(table), fuel=5000,
-                describe=f"DataPacketReceiver(MAX_PACKET_SIZE={2**lw - 1}, stand-in CRC units"
+                describe=f"DataPacketReceiver(MAX_PACKET_SIZE={t.params['max']}, stand-in CRC units"
                          f"{'' if hd else ', sliced to the non-header outputs'}) == model on all traces whose word of each cycle is "
                          f"in the list of the FSM state of that cycle (data/ctrl/valid) -- " + _alpha_text(table)))
         else:
             obs.append(tie.corr(f"corr_{t.name}", t, mstep=mstep, m0=f"drx_init {U}",
                                 describe=f"complete DataPacketReceiver (real CRC units, lw={lw}, header output) vs model: random "
-                                         f"data packets (lengths 0..40 incl. every tail), CRC/ctrl corruption, idle words, other traffic"))
+                                         f"data packets (lengths 0..40 incl. every tail, and MAX_PACKET_SIZE-4..MAX_PACKET_SIZE), CRC/ctrl corruption, idle words, other traffic"))
         obs.append(tie.cmon(f"spec_{t.name}", t, mon=f"(drx_spec_mon {_spec(kind)} {lw} {_b(hd)})", m0="1",
                             describe="specification parser over the valid input words (reference CRCs) as runtime oracle on simulator "
                                      "traces of the real code: the events of every cycle must be the specification's"))
@@ -368,7 +409,7 @@ def tie_theorems(targets, tier):
         if hd:
             s += f"""
 Theorem C40_{t.name}_spec : forall tr,
-  alpha_ok drx_state (drx_step drx_stub_units {lw} true) ({_alpha_coq(_table(kind, tier))}) (drx_init drx_stub_units) tr = true ->
+  alpha_ok drx_state (drx_step drx_stub_units {lw} true) ({_alpha_coq(_table(kind, tier, t.params['max']))}) (drx_init drx_stub_units) tr = true ->
   flat_map drx_events_w (run {G}.step {G}.init tr) = sp_run drx_stub_h16 drx_stub_c32 {lw} SIdle (drx_vwords tr).
 Proof.
   intros tr H. rewrite ({ob}_T.tie tr H).
@@ -378,7 +419,7 @@ Qed.
         else:
             s += f"""
 Theorem C40_{t.name}_spec : forall tr,
-  alpha_ok drx_state (drx_step drx_stub_units {lw} false) ({_alpha_coq(_table(kind, tier))}) (drx_init drx_stub_units) tr = true ->
+  alpha_ok drx_state (drx_step drx_stub_units {lw} false) ({_alpha_coq(_table(kind, tier, t.params['max']))}) (drx_init drx_stub_units) tr = true ->
   flat_map drx_events_w (run {G}.step {G}.init tr)
   = map drx_ev_nohdr (sp_run drx_stub_h16 drx_stub_c32 {lw} SIdle (drx_vwords tr)).
 Proof.
@@ -403,10 +444,10 @@ LEVEL_TEXT = ("Machine-checked proof about a code-shaped model of DataPacketRece
               "byte gives one bad (C40_ctrl_symbol_in_payload); a header with a wrong CRC gives no report (C40_bad_header).  The receiver's "
               "netlist regenerated from /repo (small MAX_PACKET_SIZE, stand-in CRC units) is proved equal to the model on all traces over "
               "per-state word alphabets (certified product reachability), hence satisfies the same specification (C40_drx_stub7_spec).  "
-              "THE UNCHANGED /repo CODE VIOLATES THE PROPERTY (5 defects confirmed on the simulator, findings/C40-*.json); the check passes "
-              "with findings/C40-report-once.diff applied.")
+              "Five defects of the original code were found by this check (findings/C40-*.json, confirmed on the simulator) and are "
+              "fixed in /repo (findings/C40-report-once.diff).")
 LEVEL_NOTE = ("Trusted: Coq kernel + vm_compute, Amaranth elaboration, nir2coq.py/Netlist.v (validated each run against pysim). The netlist "
-              "theorem is for the receiver's own code with MAX_PACKET_SIZE = 7, stand-in (2-bit xor) CRC units, the header output sliced away, "
+              "theorem is for the receiver's own code with MAX_PACKET_SIZE = 7 and MAX_PACKET_SIZE = 8 (a power of two, length = MAX in the lists), stand-in (2-bit xor) CRC units, the header output sliced away, "
               "and traces whose word of each cycle is in the explicit list of that cycle's FSM state (valid/invalid words, every length "
               "0..7 in the thorough tier (0,1,2,3,4,5 quick), good and wrong checksums/CRC-5, ctrl symbols on payload and CRC bytes, broken "
               "framing); the thorough tier adds a target with the header output (smaller lists).  The real CRC kernels are C30's theorems; "
